@@ -201,6 +201,9 @@ def main(argv):
         trusted += g.trusted
         if out['status'] in ('error', 'rlimit'):
             undecided += out['undecided']
+        rl_fns = set(out.get('rlimit_fns', []))
+        if None in rl_fns:
+            rl_fns = None   # a resource limit that cannot be attributed: everything of this unit is undecided
         also = [re.compile(x) for x in cfg.get('also', [])]
         mine = {k: v for k, v in g.obligations.items() if prop in v['props'] or any(r.search(k) for r in also)}
         base = set(baseline.get(prop, {}).get(uname, []))
@@ -223,11 +226,13 @@ def main(argv):
                 pass
             elif v['fn'] in failed_fns:
                 tainted.append((uname, k, v['fn'], failed_fns[v['fn']], g))
-            elif out['status'] in ('ok', 'failed'):
+            elif out['status'] in ('ok', 'failed') or (out['status'] == 'rlimit' and rl_fns is not None and v['fn'] not in rl_fns):
                 discharged[k] = v
-        if out['status'] in ('ok', 'failed'):
+        # a semantic failure of one function stands even if ANOTHER function (or lemma) ran into the resource limit:
+        # lemmas are only ever assumed at their call sites, so an unproved lemma cannot cause a refutation elsewhere
+        if out['status'] in ('ok', 'failed') or (out['status'] == 'rlimit' and rl_fns is not None):
             for ob, diags in out['failed'].items():
-                if ob in mine or (ob.endswith('<spec-text>') and False):
+                if ob in mine and (rl_fns is None or g.obligations[ob]['fn'] not in rl_fns):
                     violations.append((uname, ob, diags, g))
         for it in g.items:
             if it['kind'] == 'fn':
@@ -272,7 +277,10 @@ def main(argv):
             real.append((uname, ob, diags, g))
 
     # tainted obligations: undecided unless the witness finder shows the property really fails on the real code
-    if tainted and not real and not undecided:
+    soft = [x for x in undecided if x.startswith('resource limit')]
+    hard_und = [x for x in undecided if not x.startswith('resource limit')]
+    kani_fail = [b for b in bounded if b['status'] == 'failed']
+    if tainted and not real and not undecided and not kani_fail:
         w = None
         if cfg.get('witness'):
             depth = 5 if cfg.get('witness') == 'alloc' else 4
@@ -291,13 +299,12 @@ def main(argv):
             fns = sorted({t[2] for t in tainted})
             undecided.append('obligations of %s in %s are not proved: the function fails obligation(s) %s tagged for other properties, and no failing input for %s was found%s'
                              % (prop, fns, sorted({ob for t in tainted for (ob, _) in t[3]}), prop, '' if cfg.get('witness') else ' (no witness harness for this property)'))
-    kani_fail = [b for b in bounded if b['status'] == 'failed']
     exit_code = 0
     lines = []
     for (hit, ob) in known_hits:
         lines.append('KNOWN-FINDING: property=%s %s (obligation %s)' % (prop, hit.get('what', ''), ob))
     witness = locals().get('pre_witness')
-    if real and not undecided:
+    if real and not hard_und:
         depth = 6 if tier == 'thorough' else 5
         if cfg.get('witness') in ('storage', 'misc'):
             depth = 5 if tier == 'thorough' else 4
@@ -322,7 +329,7 @@ def main(argv):
             tail = '' if (witness and witness.get('found')) else ' no-failing-input-found'
             lines.append('VIOLATION property=%s replay=%s%s' % (prop, rp, tail))
         exit_code = 1
-    if kani_fail and not undecided:
+    if kani_fail and not hard_und:
         for b in kani_fail:
             rp = os.path.join(EVID, 'replay', '%s-kani_%s.json' % (prop, b['harness']))
             with open(rp, 'w') as f:
@@ -333,7 +340,7 @@ def main(argv):
         exit_code = 1
     if exit_code == 0 and undecided:
         exit_code = 2
-    elif exit_code == 1 and undecided:
+    elif exit_code == 1 and hard_und:
         exit_code = 2
     if not obligations and not bounded and exit_code == 0:
         undecided.append('no obligations generated for this property')
